@@ -261,7 +261,19 @@ def gen_api_case(rng, ctx, pool_of_keys, forced=None):
             posts.append({"list": 0, "idx": i})
             posts.append({"list": 0, "idx": i})                  # second post: already released
     ctx.dist("api:allocs-%d" % len(allocs))
-    return {"op": "api", "allocs": allocs, "pods": pods, "lists": lists, "posts": posts}, meta, size
+    batches = []
+    if rng.random() < 0.35 and len(allocs) >= 2:
+        # the listing (or a part of it) is posted back in ONE request, some entries without their appType, in listing
+        # order or shuffled; a second request repeats some of it
+        specs = [dict({"list": 0, "idx": i}, **({"blank": True} if rng.random() < 0.4 else {})) for i in range(len(allocs))]
+        if rng.random() < 0.5:
+            rng.shuffle(specs)
+        if rng.random() < 0.3:
+            specs = specs[:max(2, len(specs) // 2)]
+        batches = [specs] + ([rng.sample(specs, min(2, len(specs)))] if rng.random() < 0.3 else [])
+        posts = []
+        ctx.dist("api:batch-request-%d-entries" % len(specs))
+    return {"op": "api", "allocs": allocs, "pods": pods, "lists": lists, "posts": posts, "batches": batches}, meta, size
 
 
 def run(ctx):
@@ -488,6 +500,22 @@ def run(ctx):
                 ctx.dist("api:post-blank-type")
             else:
                 ctx.dist("api:post-other")
+            state = after
+        for bspec, bo in zip(c.get("batches") or [], o.get("batches") or []):
+            es = clist(cpair(cstr(e[0]), lstr(e[1:])) for e in bo["entries"])
+            before = list(state)
+            after = [(a, b) for a, b in bo["state"]]
+            corr.append("(chk_post_batch %s %s %s %s %s %s)" % (flags, cstate(before), pods, es, cbool(bo["code"] != 200), cstate(after)))
+            idx_corr.append(("api", ci, bspec))
+            info = {"case": c, "batch": bspec, "entries": bo["entries"], "state_before": before,
+                    "answer": {k: bo[k] for k in ("code", "unreleased", "reasons")}, "state_after": after,
+                    "how": "bin/check C11 --replay <this file>"}
+            mons.append("(mon_exact_batch %s %s %s)" % (cstate(before), es, cstate(after)))
+            mon_info.append(("release_exact", "a POST /v1/ip with several entries released something no entry denotes", info, []))
+            mons.append("(mon_batch_releases %s %s %s %s)" % (cstate(before), pods, es, cstate(after)))
+            mon_info.append(("list_release_roundtrip", "an entry of a POST /v1/ip with several entries denotes the current key of its IP "
+                             "(omitted appType = statefulset) and was not released: HTTP %s %s" % (bo["code"], bo.get("reasons")), info, []))
+            ctx.dist("api:post-batch")
             state = after
         if len(ctx.cov["samples"]) < 5 and len(c["allocs"]) >= 3:
             ctx.sample({"case": {k: c[k] for k in ("allocs", "pods")}, "listed": listed0[:4],
